@@ -2,6 +2,7 @@ import Jap.Core.Subcmd
 import Jap.Lemmas.Subcmd
 import Jap.Lemmas.SubcmdMore
 import Jap.Lemmas.SubcmdLayer
+import Jap.Lemmas.SubcmdSources
 import Jap.Gen.SubcmdShape
 /-!
 # C17 — exactly one subcommand is selected and only its settings survive
@@ -479,6 +480,246 @@ theorem C17_default_config_leak_counterexample :
     lookup "eval" (layerC envNamesEval 3 true [("fit", [d2])] .dflt fit2) = .none := by
   refine ⟨by rfl, by rfl⟩
 
+/-! ## session 2: the open findings characterised exactly, and their complements
+
+Each open finding is stated as an EXACT condition inside the model (when, and on which key, the code deviates) together
+with the complement: outside that class the sources are taken verbatim, the merged configuration is the plain precedence
+fold of all sources (the fold of C04), and the final-stage theorems above (`C17_exactly_one`, `C17_complete_settings`,
+`C17_choice`) apply to it. -/
+
+/-- C17-early-selection-drops-settings, EXACT for a config argument / the config environment variable: the section `k` of
+    the source survives the loading iff it is not the case that the source names a subcommand (truthy value under the key),
+    holds sections of two or more subcommands, and `k` is one of them other than the named one -/
+theorem C17_early_selection_exact (i : Info) (h : SubHdr) (choices : List (String × P)) (tree t : Cfg)
+    (hok : loadCfgArg (.node i (some h) choices) tree = .ok t) (k : String) :
+    isSecAt k t = (isSecAt k tree && !loses h (names choices) tree k) :=
+  loadCfgArg_exact i h choices tree t hok k
+
+/-- the same for every `get_subcommands` call under the single-subcommand rule (each default config file, the final stage):
+    `k` is deleted iff some subcommand is selected (named, else the first with a section), two or more have sections and `k`
+    is one of them other than the selected one.  For a default config file this is the early selection: the file's first
+    section wins whatever a later source names -/
+theorem C17_single_rule_exact (h : SubHdr) (ns : List String) (fail : Bool) (mode : Mode) (c : Cfg) (k : String) :
+    isSecAt k (getSubCore h ns ⟨fail, true, mode⟩ c).cfg = (isSecAt k c && !losesSingle h ns c k) :=
+  isSecAt_getSubCore_single h ns fail mode c k
+
+/-- complement, at EVERY depth: a config source in which no level both names a subcommand and holds sections of several
+    goes through `apply_config` unchanged — the whole tree, not only its top-level sections (this replaces the hypothesis
+    `quiet` of `C17_source_keeps_sections_partial`, which spoke of one level, by the weakest one the code allows) -/
+theorem C17_quiet_source_verbatim (p : P) (tree t : Cfg) (hok : loadCfgArg p tree = .ok t) (hq : quietDeep p tree = true) :
+    t = tree :=
+  loadCfgArg_verbatim p tree t hok hq
+
+/-- the hypothesis cannot be weakened: if the top level is not quiet, some section IS lost (here: every section other than
+    the named one) -/
+theorem C17_not_quiet_loses (i : Info) (h : SubHdr) (choices : List (String × P)) (tree t : Cfg) (k : String)
+    (hok : loadCfgArg (.node i (some h) choices) tree = .ok t)
+    (hs : selectsEarly h (names choices) tree = true) (hk : k ∈ names choices) (hsec : isSecAt k tree = true)
+    (hne : isStr k (explicitOf (lookup h.dest tree)) = false) :
+    isSecAt k t = false := by
+  rw [C17_early_selection_exact i h choices tree t hok k]
+  have : k ∈ subKeys (names choices) tree := (mem_subKeys _ _ _).2 ⟨hk, hsec⟩
+  simp [loses, hs, this, hne]
+
+/-- ALL SOURCES OF ONE COMMAND LINE, ANY NUMBER, ANY ORDER: options and config arguments interleaved; when every config
+    argument is quiet the configuration that reaches the final stage is the precedence fold (later over earlier) of all of
+    them over the namespace handed in over defaults and environment -/
+theorem C17_command_line_is_fold (p : P) (items : List (Bool × Cfg)) (c r : Cfg) (hok : applyItems p items c = .ok r)
+    (hq : ∀ it ∈ items, it.1 = true → quietDeep p it.2 = true) : r = foldItems items c :=
+  applyItems_fold p items c r hok hq
+
+/-- … and a key of the fold holds the value of the LAST source that gives it, else what was below (C04's rule) -/
+theorem C17_fold_value (k : String) (items : List (Bool × Cfg)) (c : Cfg)
+    (h : ∀ it ∈ items, (keysOf it.2).Nodup ∧ leafAt k it.2 = true) :
+    lookup k (foldItems items c) = lastLeaf k items (lookup k c) :=
+  lookup_foldItems k items c h
+
+/-- the whole `parse_args` of the model, for ANY command line (subcommand names at any depth, config arguments that are
+    not quiet included), any namespace handed in, any defaults/environment: on success exactly one subcommand per level -/
+theorem C17_pipeline_exactly_one (lay : Mode → P → Cfg) (single : Bool) (mode : Mode) (validate : Bool) (p : P) (av : Argv)
+    (ns r : Cfg) (hwf : wf p = true) (hm : mode ≠ .none)
+    (hok : parseArgs lay single mode validate p av ns = .ok r) : exactlyOne p r = true := by
+  obtain ⟨c, hc⟩ := parseArgs_final lay single mode validate p av ns r hok
+  obtain ⟨c1, h1, h2⟩ := parseCommon_ok lay ⟨true, single, mode⟩ validate p c r hc
+  exact (sound_P p lay single mode [] c c1 r hwf hm h1 h2).1
+
+/-- … and with quiet config arguments and no subcommand name on the command line the result is exactly-one, complete and
+    chosen by the rule RELATIVE TO THE FOLD of all sources: nothing a source gives for the selected subcommand is lost -/
+theorem C17_pipeline_quiet_sound (lay : Mode → P → Cfg) (single : Bool) (mode : Mode) (validate : Bool) (p : P)
+    (items : List (Bool × Cfg)) (ns r : Cfg) (hwf : wf p = true) (hm : mode ≠ .none)
+    (hq : ∀ it ∈ items, it.1 = true → quietDeep p it.2 = true)
+    (hok : parseArgs lay single mode validate p (.mk items .none) ns = .ok r) :
+    exactlyOne p r = true ∧ complete lay mode p (foldItems items (merge ns (baseOf mode p))) r ∧
+      choiceOK lay mode p (foldItems items (merge ns (baseOf mode p))) r := by
+  have hc := parseArgs_quiet lay single mode validate p items ns r hq hok
+  obtain ⟨c1, h1, h2⟩ := parseCommon_ok lay ⟨true, single, mode⟩ validate p _ r hc
+  exact sound_P p lay single mode [] _ c1 r hwf hm h1 h2
+
+/-- the selection is the one named by the highest-precedence source that names one: the LAST item of the command line
+    that holds the subcommand key, else the value below (namespace, environment, default config files) -/
+theorem C17_choice_highest_precedence (lay : Mode → P → Cfg) (single : Bool) (mode : Mode) (validate : Bool) (i : Info)
+    (h : SubHdr) (choices : List (String × P)) (items : List (Bool × Cfg)) (ns r : Cfg) (v : Val)
+    (hwf : wf (.node i (some h) choices) = true) (hm : mode ≠ .none)
+    (hq : ∀ it ∈ items, it.1 = true → quietDeep (.node i (some h) choices) it.2 = true)
+    (hl : ∀ it ∈ items, (keysOf it.2).Nodup ∧ leafAt h.dest it.2 = true)
+    (hv : explicitOf (lastLeaf h.dest items (lookup h.dest (merge ns (baseOf mode (.node i (some h) choices))))) = some v)
+    (hok : parseArgs lay single mode validate (.node i (some h) choices) (.mk items .none) ns = .ok r) :
+    lookup h.dest r = some v := by
+  have hs := (C17_pipeline_quiet_sound lay single mode validate _ items ns r hwf hm hq hok).2.2
+  rw [choiceOK] at hs
+  have hc : choice h (names choices) (foldItems items (merge ns (baseOf mode (.node i (some h) choices)))) = some v := by
+    unfold choice
+    rw [C17_fold_value h.dest items _ hl, hv]
+  have := hs.1
+  rw [hc] at this
+  exact this
+
+/-- (iv) parsing a RESULT again (what `dump`/`save`/`print_config` write is the result: the subcommand key and the selected
+    section are in it) selects the same subcommand: the name is explicit in the result, and where nothing was selected there
+    is nothing to select from -/
+theorem C17_reparse_same_selection (lay : Mode → P → Cfg) (single : Bool) (mode : Mode) (i : Info) (h : SubHdr)
+    (choices : List (String × P)) (cfg r r' : Cfg)
+    (hwf : wf (.node i (some h) choices) = true) (hm : mode ≠ .none)
+    (h1 : finalParse lay single mode (.node i (some h) choices) cfg = .ok r)
+    (h2 : finalParse lay single mode (.node i (some h) choices) r = .ok r') :
+    (∃ n, lookup h.dest r = some (.str n) ∧ lookup h.dest r' = some (.str n)) ∨
+    (isNoneO (lookup h.dest r) = true ∧ isNoneO (lookup h.dest r') = true) := by
+  have hc := C17_choice lay single mode _ r r' hwf hm h2
+  rw [choiceOK] at hc
+  rcases C17_exactly_one_top lay single mode i h choices cfg r hwf hm h1 with ⟨n, hn, _, _, _⟩ | ⟨hnone, hsec⟩
+  · left
+    have := hc.1
+    rw [choice_explicit h _ r n hn] at this
+    exact ⟨n, hn, this⟩
+  · right
+    have hch : choice h (names choices) r = .none := by
+      have he : explicitOf (lookup h.dest r) = .none := by
+        cases hl : lookup h.dest r with
+        | none => rfl
+        | some v => cases v <;> simp_all [isNoneO, explicitOf]
+      have hk : subKeys (names choices) r = [] := by
+        simp only [subKeys, List.filter_eq_nil_iff]
+        intro m hm'
+        simp [hsec m hm']
+      simp [choice, he, hk]
+    have := hc.1
+    rw [hch] at this
+    exact ⟨hnone, this⟩
+
+/-- (iv) what `dump`/`save`/`print_config` WRITE omits the subcommand key at every level (`_dump_cleanup_actions` pops it): the
+    re-parse must select by "first with settings".  It selects the same subcommand because the result holds EXACTLY ONE
+    section (`C17_exactly_one`), provided that defaults and environment, over which the dumped document is merged, neither
+    name a subcommand nor hold a section of another one: `c` is any configuration with no name and exactly the section `n` -/
+theorem C17_reparse_dump_same_selection (lay : Mode → P → Cfg) (single : Bool) (mode : Mode) (i : Info) (h : SubHdr)
+    (choices : List (String × P)) (c r' : Cfg) (n : String)
+    (hwf : wf (.node i (some h) choices) = true) (hm : mode ≠ .none) (hn : n ∈ names choices)
+    (he : explicitOf (lookup h.dest c) = .none) (hs : ∀ m ∈ names choices, isSecAt m c = (m == n))
+    (h2 : finalParse lay single mode (.node i (some h) choices) c = .ok r') :
+    lookup h.dest r' = some (.str n) := by
+  obtain ⟨_, _, hnd, _⟩ := wf_node i h choices hwf
+  have hc := C17_choice lay single mode _ c r' hwf hm h2
+  rw [choiceOK] at hc
+  have := hc.1
+  rw [choice_only_section h _ c n hnd hn he hs] at this
+  exact this
+
+/-- the hypothesis on defaults and environment is needed (NEW observation, real code: parse_args(['fit', '--lr=3']) with a
+    default config file {test: {k: 5}}; dump gives "fit: {lr: 3}"; parse_string of it selects `test`): `get_defaults` has
+    NAMED `test` while loading the file on its own, the dumped document only holds the section `fit`, a name beats a section -/
+theorem C17_reparse_dump_counterexample :
+    finalParse (layFuel 8 true) true .dflt twoP [("cmd", .str "b"), ("b", .sec [("y", .int 5)]), ("a", .sec [("x", .int 3)])]
+      = .ok [("cmd", .str "b"), ("b", .sec [("y", .int 5)])] := by rfl
+
+/-- C17-env-named-subcommand-resets-defaults, EXACT: when the subcommand variable names the subcommand `v`, the environment
+    layer of the parser holds under `v` EVERY key of the named sub-parser's complete `parse_env` — its plain option defaults
+    included — so that, environment going over defaults, no default config value for `v` survives … -/
+theorem C17_env_named_copies_all (E : Env) (penv : P → Cfg) (q : P) (c0 : Cfg) (h : SubHdr) (v : String) (r : P) (k : String)
+    (hs : q.sub = some h)
+    (hv : lookupE (getEnvVar (prefixAt E.root (q.info.path.map codes)) (codes h.dest)) E.vals = some (.str v))
+    (hr : findP v q.choices = some r) (hnd : (keysOf (penv r)).Nodup) (hk : k ∈ keysOf (penv r)) :
+    lookup k (secOf (lookup v (envSubPart E penv q c0))) = lookup k (penv r) := by
+  rw [envSubPart_named E penv q c0 h v r hs hv hr]
+  exact copyUnder_all v (penv r) _ hnd k hk
+
+/-- … complement: without the variable the branch does nothing -/
+theorem C17_env_unnamed_keeps (E : Env) (penv : P → Cfg) (q : P) (c0 : Cfg)
+    (hv : ∀ h, q.sub = some h →
+      lookupE (getEnvVar (prefixAt E.root (q.info.path.map codes)) (codes h.dest)) E.vals = .none) :
+    envSubPart E penv q c0 = c0 :=
+  envSubPart_unnamed E penv q c0 hv
+
+/-- C17-env-default-config-leak, EXACT: under a `parent_parsers` stack `ctx ++ [(key, parent's files)]` the defaults of a
+    parser at one of its options are: its own files, else the parent's files narrowed to `key`, else — THE LEAK — the files of
+    the parsers further up the stack narrowed to THEIR keys (sections meant for an ancestor), else the option default … -/
+theorem C17_leak_exact (E : Env) (fuel : Nat) (single : Bool) (ctx : Ctx) (key : String) (pd : List Cfg) (r : P) (k : String)
+    (hk : ownKey r k) (hm : k ≠ "__default_config__")
+    (hf : ∀ t ∈ filesOf (ctx ++ [(key, pd)]) r.info.dcfs, (keysOf t).Nodup ∧ leafAt k t = true) :
+    lookup k (layerC E fuel single (ctx ++ [(key, pd)]) .dflt r) =
+      pickLast k r.info.dcfs (pickLast k (pd.map (narrow key)) (pickLast k (filesOf ctx []) (lookup k r.info.opts))) := by
+  have e : layerC E fuel single (ctx ++ [(key, pd)]) .dflt r = getDefaultsC single (ctx ++ [(key, pd)]) r := by
+    cases fuel <;> rfl
+  rw [e, getDefaultsC_own single _ r k hk hm hf, filesOf_snoc, pickLast_append, pickLast_append]
+
+/-- … complement: when no file further up the stack has the key (always so for the stack of the final stage, which has one
+    entry: two-level trees, environment parsing off) the value is the intended one -/
+theorem C17_no_leak (E : Env) (fuel : Nat) (single : Bool) (ctx : Ctx) (key : String) (pd : List Cfg) (r : P) (k : String)
+    (hk : ownKey r k) (hm : k ≠ "__default_config__")
+    (hf : ∀ t ∈ filesOf (ctx ++ [(key, pd)]) r.info.dcfs, (keysOf t).Nodup ∧ leafAt k t = true)
+    (habs : ∀ t ∈ filesOf ctx [], lookup k t = .none) :
+    lookup k (layerC E fuel single (ctx ++ [(key, pd)]) .dflt r) =
+      pickLast k r.info.dcfs (pickLast k (pd.map (narrow key)) (lookup k r.info.opts)) := by
+  rw [C17_leak_exact E fuel single ctx key pd r k hk hm hf, pickLast_absent k _ _ habs]
+
+/-! ### non-vacuity of the session-2 statements -/
+
+def srcNamed : Cfg := [("subcommand", .str "test"), ("run", .sec [("gamma", .int 30)]), ("fit", .sec [("alpha", .int 10)])]
+def srcQuiet : Cfg := [("run", .sec [("gamma", .int 30)]), ("fit", .sec [("alpha", .int 10)])]
+
+/-- the exact condition on the witness of the finding: `run` and `fit` are lost, `test` would not be -/
+example : loses ⟨"subcommand", true⟩ ["fit", "test", "run"] srcNamed "run" = true ∧
+    loses ⟨"subcommand", true⟩ ["fit", "test", "run"] srcNamed "fit" = true ∧
+    loses ⟨"subcommand", true⟩ ["fit", "test", "run"] srcNamed "test" = false ∧
+    quietDeep threeP srcNamed = false ∧ quietDeep threeP srcQuiet = true := by decide
+
+/-- a quiet source with two sections is loaded verbatim … -/
+example : loadCfgArg threeP srcQuiet = .ok srcQuiet := by rfl
+
+/-- … and `--cfg=<two sections> --cfg=<name run>` (two documents, the second names the subcommand) keeps the given 30:
+    the fold of both documents reaches the final stage -/
+example : parseArgs (layFuel 8 true) true .dflt true threeP
+      (.mk [(true, srcQuiet), (true, [("subcommand", .str "run")])] .none) []
+      = .ok [("subcommand", .str "run"), ("run", .sec [("gamma", .int 30)])] := by rfl
+
+example : foldItems [(true, srcQuiet), (true, [("subcommand", .str "run")])] [("subcommand", .none)] =
+    [("subcommand", .str "run"), ("run", .sec [("gamma", .int 30)]), ("fit", .sec [("alpha", .int 10)])] := by rfl
+
+/-- the single-subcommand rule on a default config file with two sections: `run` (declared last) is lost, `fit` kept -/
+example : losesSingle ⟨"subcommand", true⟩ ["fit", "test", "run"] srcQuiet "run" = true ∧
+    losesSingle ⟨"subcommand", true⟩ ["fit", "test", "run"] srcQuiet "fit" = false := by decide
+
+/-- re-parsing the result of the example above gives the same selection (and here the same result) -/
+example : finalParse (layFuel 8 true) true .dflt threeP [("subcommand", .str "run"), ("run", .sec [("gamma", .int 30)])]
+    = .ok [("subcommand", .str "run"), ("run", .sec [("gamma", .int 30)])] := by rfl
+
+/-- the dumped form of a result that selected `a` (no key, one section) selects `a` again -/
+example : finalParse (layFuel 8 true) true .dflt twoP [("a", .sec [("x", .int 3)])] = .ok [("a", .sec [("x", .int 3)]), ("cmd", .str "a")] := by rfl
+
+/-- class (b) of the open finding C17-dump-reparse-selects-other: the dumped section of a sub-parser without options is empty,
+    `merge_config` copies leaves only, so the section does not arrive and a required subcommand is reported missing -/
+theorem C17_reparse_dump_empty_section_counterexample :
+    merge [("eval", .sec [])] [("subcommand", .none)] = [("subcommand", .none)] ∧
+    finalParse (layFuel 8 true) true .dflt (.node (.basic [("subcommand", .none)] []) (some ⟨"subcommand", true⟩) [("eval", leafP [])])
+      (merge [("eval", .sec [])] [("subcommand", .none)]) = .error (.nosub ["subcommand"]) := by
+  refine ⟨by rfl, by rfl⟩
+
+/-- the environment-named witness: the layer holds the sub-parser's plain default alpha = 1 under `fit` -/
+example : lookup "alpha" (secOf (lookup "fit" (envSubPart envNamesFit (layerC envNamesFit 3 true [] .env) rootP []))) = some (.int 1) := by
+  rfl
+
+/-- the leak witness through `C17_leak_exact`: the file of the root, narrowed to `fit`, is the lowest-precedence term -/
+example : pickLast "gamma" [] (pickLast "gamma" ([] : List Cfg) (pickLast "gamma" (filesOf [("fit", [d2])] []) .none)) = some (.int 792) := by
+  rfl
+
 /-! ## ties: the regenerated shape of the code equals the statements the model transcribes
 
 `Jap.Gen.SubcmdShape` is rewritten from /repo's working tree on every run (harness/extractors/subcmd_shape.py). -/
@@ -531,5 +772,17 @@ theorem tie_layer_sources :
     Jap.Gen.SubcmdShape.defaultConfigLoad = Shape.defaultConfigLoad ∧
     Jap.Gen.SubcmdShape.envOverDefaults = Shape.envOverDefaults ∧
     Jap.Gen.SubcmdShape.loadEnvVarsLoops = Shape.loadEnvVarsLoops := ⟨rfl, rfl, rfl, rfl, rfl, rfl, rfl⟩
+
+/-- session 2: EVERY statement of `get_subcommands`, `get_subcommand`, `handle_subcommands`, `add_subcommand`,
+    `add_subcommands` (complete normalised bodies, so an inserted, removed or reordered statement breaks the tie, not only an edit
+    of one of the statements picked out above), the skeleton of `_load_env_vars`, and the parameter defaults -/
+theorem tie_whole_bodies :
+    Jap.Gen.SubcmdShape.bodyGetSubcommands = Shape.bodyGetSubcommands ∧
+    Jap.Gen.SubcmdShape.bodyGetSubcommand = Shape.bodyGetSubcommand ∧
+    Jap.Gen.SubcmdShape.bodyHandleSubcommands = Shape.bodyHandleSubcommands ∧
+    Jap.Gen.SubcmdShape.bodyAddSubcommand = Shape.bodyAddSubcommand ∧
+    Jap.Gen.SubcmdShape.bodyAddSubcommands = Shape.bodyAddSubcommands ∧
+    Jap.Gen.SubcmdShape.loadEnvVarsSkeleton = Shape.loadEnvVarsSkeleton ∧
+    Jap.Gen.SubcmdShape.signatures = Shape.signatures := ⟨rfl, rfl, rfl, rfl, rfl, rfl, rfl⟩
 
 end Jap.Props.C17
